@@ -15,6 +15,7 @@ import (
 	"time"
 
 	corev1 "k8s.io/api/core/v1"
+	netv1 "k8s.io/api/networking/v1"
 	metav1 "k8s.io/apimachinery/pkg/apis/meta/v1"
 	"k8s.io/apimachinery/pkg/runtime"
 
@@ -70,6 +71,8 @@ type op struct {
 	byPtr  bool
 	o      obj
 	query  *[4]string
+	bulk   []obj // SetResources(policies, pods, namespaces) with these objects
+	clear  bool  // ClearResources()
 }
 
 var all = &wm.Sel{}
@@ -126,6 +129,8 @@ func ops() []op {
 		q := queries[i]
 		res = append(res, op{name: "q:" + strings.Join(q[:], ","), query: &q})
 	}
+	objs := objects()
+	res = append(res, op{name: "setresources:nsA(team=y)+p3(http8080)+n1(v2)", bulk: []obj{objs[1], objs[8], objs[11]}}, op{name: "clearresources", clear: true})
 	return res
 }
 
@@ -221,6 +226,43 @@ func replay(hist []*op, debugCache bool) (r result) {
 	for i = 0; i < len(hist); i++ {
 		o := hist[i]
 		switch {
+		case o.clear:
+			r.pe.ClearResources()
+			r.pe.VerifCacheDebug(debugCache)
+			r.m = model{}
+			r.ptr = map[string]runtime.Object{}
+		case o.bulk != nil:
+			var nps []*netv1.NetworkPolicy
+			var pods []*corev1.Pod
+			var nss []*corev1.Namespace
+			for _, b := range o.bulk {
+				switch k := b.k8s().(type) {
+				case *netv1.NetworkPolicy:
+					nps = append(nps, k)
+				case *corev1.Pod:
+					pods = append(pods, k)
+				case *corev1.Namespace:
+					nss = append(nss, k)
+				}
+			}
+			// SetResources inserts namespaces, then policies, then pods, and stops at the first error
+			err := r.pe.SetResources(nps, pods, nss)
+			for _, kind := range []string{"Namespace", "NetworkPolicy", "Pod"} {
+				for _, b := range o.bulk {
+					if b.kind != kind {
+						continue
+					}
+					if kind == "NetworkPolicy" {
+						if _, exists := r.m[b.key]; exists {
+							goto bulkDone // the duplicate policy is rejected and ends the call
+						}
+					}
+					r.m[b.key] = b
+					delete(r.ptr, b.key)
+				}
+			}
+		bulkDone:
+			_ = err
 		case o.query != nil:
 			q := o.query
 			r.pe.CheckIfAllowed(q[0], q[1], q[2], q[3])
